@@ -18,6 +18,10 @@ import Autog.Model.Phase5
     (`C17_sinkcoloring_scale_state`, `C17_valign_scale_state`, `C17_packright_scale_state`), phase 4 as a whole
     (`C17_phase4_scale`) and both together (`C17_phase45_scale`): positioning + routing on the scaled state = the scaled
     result, route points included, same failures. `scaleG` multiplies node sizes and coordinates, layer sizes and route points.
+    END TO END (`C17_layoutModelS_scale`): the composed model `layoutModelS` (Model/Pipeline.lean) runs pre-processing and phases 1–3
+    under options from which every size and spacing has been removed and attaches the configured sizes only before phase 4; it is
+    compared with the public result of the real `Layout` on every traced run (`T:pipeline-sizes`). For SinkColoring, VAlign, PackRight and
+    every router with an exact model: `layoutModelS (scaleCfg c cfg) es = (layoutModelS cfg es).map (scaleOut c)` for every c > 0.
     PARTIAL: Brandes–Köpf is decided by exact comparison at 2^k (k ∈ −3..6, also in tiny and huge units) on
     generated inputs plus the `Numbers` facts (the float literals and float-typed constants of phases 4/5 are pinned; no size or
     spacing is read in phases 1–3: fact `sizeReadsPhases123`, which is what connects `C17_phase45_scale` to the whole pipeline). -/
@@ -684,8 +688,10 @@ theorem phase4Simple_scale (c ns ls : Rat) (hc : 0 < c) (alg : Nat) (g : G) :
     · simp only [pure, Except.pure, Except.map, C17_packright_scale_state c ns hc, assignYCoords_scale]
     · rfl
 
-/-- the options with NodeSpacing and LayerSpacing multiplied by c -/
-def scaleCfg (c : Rat) (cfg : Cfg) : Cfg := { cfg with ns := c * cfg.ns, ls := c * cfg.ls }
+/-- the options with NodeSpacing, LayerSpacing, the fixed size and every listed size multiplied by c -/
+def scaleCfg (c : Rat) (cfg : Cfg) : Cfg :=
+  { cfg with ns := c * cfg.ns, ls := c * cfg.ls, fixed := cfg.fixed.map fun p => (c * p.1, c * p.2),
+             sizes := cfg.sizes.map fun m => m.map fun p => (p.1, c * p.2.1, c * p.2.2) }
 
 /-- **C17, phase 4 as a whole for SinkColoring, VAlign and PackRight** (positioner, layer heights, Y assignment) -/
 theorem C17_phase4_scale (c : Rat) (hc : 0 < c) (cfg : Cfg) (hp : cfg.p4 ≤ 2) (g : G) :
@@ -716,5 +722,239 @@ theorem C17_phase45_scale (c : Rat) (hc : 0 < c) (cfg : Cfg) (hp : cfg.p4 ≤ 2)
   | ok g4 =>
     simp only [Except.map, bind, Except.bind, scaleCfg]
     exact C17_phase5_scale c cfg.ls hc cfg.p5 g4
+
+
+/-! ### end to end: the composed model `layoutModelS` (sizes and spacings withheld from phases 0–3; key `T:pipeline-sizes`) -/
+
+theorem lookup_scale (c : Rat) (id : String) : ∀ (m : List (String × Rat × Rat)),
+    (m.map fun p => (p.1, c * p.2.1, c * p.2.2)).lookup id = (m.lookup id).map fun s => (c * s.1, c * s.2)
+  | [] => rfl
+  | (k, w, h) :: m => by
+    simp only [List.map_cons, List.lookup_cons]
+    cases id == k with
+    | true => rfl
+    | false => exact lookup_scale c id m
+
+theorem sizeOf_scale (c : Rat) (cfg : Cfg) (id : String) :
+    sizeOf (scaleCfg c cfg) id = (c * (sizeOf cfg id).1, c * (sizeOf cfg id).2) := by
+  unfold sizeOf scaleCfg
+  simp only
+  cases hs : cfg.sizes with
+  | none =>
+    simp only [Option.map_none, Option.bind_none]
+    cases cfg.fixed with
+    | none => simp only [Option.map_none, Option.getD_none]; congr 1 <;> grind
+    | some p => rfl
+  | some m =>
+    simp only [Option.map_some, Option.bind_some, lookup_scale]
+    cases m.lookup id with
+    | some s => rfl
+    | none =>
+      simp only [Option.map_none]
+      cases cfg.fixed with
+      | none => simp only [Option.map_none, Option.getD_none]; congr 1 <;> grind
+      | some p => rfl
+
+theorem sizeFreeCfg_scale (c : Rat) (cfg : Cfg) : sizeFreeCfg (scaleCfg c cfg) = sizeFreeCfg cfg := rfl
+
+theorem attachSizes_scale (c : Rat) (cfg : Cfg) (g : G) :
+    attachSizes (scaleCfg c cfg) g = scaleG c (attachSizes cfg g) := by
+  have h0 : (0 : Rat) = c * 0 := by grind
+  simp only [attachSizes, scaleG, Array.map_map, Function.comp_def, sizeOf_scale, List.map_nil]
+  congr 1
+  · apply Array.ext'
+    simp only [Array.toList_map]
+    apply List.map_congr_left
+    intro n _
+    cases n.virt <;> simp [← h0]
+  · apply Array.ext'
+    simp only [Array.toList_map]
+    apply List.map_congr_left
+    intro l _
+    simp [← h0]
+
+/-- `Edge.Reverse` commutes with the scaling -/
+theorem reverse_scale (c : Rat) (g : G) (e : Nat) : (scaleG c g).reverse e = scaleG c (g.reverse e) := by
+  unfold G.reverse
+  have hs := (scaleGP_edge_ends c g e).1
+  have hd := (scaleGP_edge_ends c g e).2.1
+  simp only [scaleGP] at hs hd
+  simp only [hs, hd]
+  rw [scaleGP_modNode c g _ _ (fun _ => rfl), scaleGP_modNode c _ _ _ (fun _ => rfl), scaleGP_modNode c _ _ _ (fun _ => rfl),
+    scaleGP_modNode c _ _ _ (fun _ => rfl), scaleGP_modEdge c _ _ _ (fun _ => rfl)]
+
+theorem foldl_unreverse_scale (c : Rat) : ∀ (l : List Nat) (g : G),
+    l.foldl (fun g e => if (g.edge e).rev then g.reverse e else g) (scaleG c g) =
+    scaleG c (l.foldl (fun g e => if (g.edge e).rev then g.reverse e else g) g)
+  | [], _ => rfl
+  | e :: l, g => by
+    simp only [List.foldl_cons]
+    have hr := (scaleGP_edge_ends c g e).2.2
+    simp only [scaleGP] at hr
+    rw [hr]
+    split
+    · rw [reverse_scale]; exact foldl_unreverse_scale c l _
+    · exact foldl_unreverse_scale c l g
+
+theorem unreverseEdges_scale (c : Rat) (g : G) : unreverseEdges (scaleG c g) = scaleG c (unreverseEdges g) := by
+  unfold unreverseEdges
+  exact foldl_unreverse_scale c g.elist g
+
+/-- one iteration of `restoreSelfLoops` -/
+def restoreLoopStep (g : G) (v : Nat) : G :=
+  let e := g.edges.size
+  let g := { g with edges := g.edges.push { src := v, dst := v } }
+  let g := g.modNode v fun n => { n with outs := n.outs ++ [e] }
+  let g := g.modNode v fun n => { n with ins := n.ins ++ [e] }
+  { g with elist := g.elist ++ [e] }
+
+theorem restoreSelfLoops_eq (g : G) (loops : List Nat) : restoreSelfLoops g loops = loops.foldl restoreLoopStep g := rfl
+
+theorem restoreLoopStep_scale (c : Rat) (g : G) (v : Nat) : restoreLoopStep (scaleG c g) v = scaleG c (restoreLoopStep g v) := by
+  unfold restoreLoopStep
+  have hsz : (scaleG c g).edges.size = g.edges.size := by simp [scaleG]
+  have hpush : ({ scaleG c g with edges := (scaleG c g).edges.push { src := v, dst := v } } : G) =
+      scaleG c { g with edges := g.edges.push { src := v, dst := v } } := by
+    simp only [scaleG, Array.map_push, List.map_nil]
+  simp only [hsz]
+  rw [hpush, scaleGP_modNode c _ _ _ (fun _ => rfl), scaleGP_modNode c _ _ _ (fun _ => rfl)]
+  rfl
+
+theorem restoreSelfLoops_scale (c : Rat) : ∀ (loops : List Nat) (g : G),
+    restoreSelfLoops (scaleG c g) loops = scaleG c (restoreSelfLoops g loops)
+  | [], _ => rfl
+  | v :: loops, g => by
+    simp only [restoreSelfLoops_eq, List.foldl_cons, restoreLoopStep_scale]
+    have := restoreSelfLoops_scale c loops (restoreLoopStep g v)
+    simpa only [restoreSelfLoops_eq] using this
+
+theorem postProcess_scale (c : Rat) (g : G) (loops : List Nat) :
+    postProcess (scaleG c g) loops = scaleG c (postProcess g loops) := by
+  unfold postProcess
+  rw [restoreSelfLoops_scale, unreverseEdges_scale]
+
+theorem rightmostX_scale (c : Rat) (hc : 0 < c) (g : G) : rightmostX (scaleG c g) = c * rightmostX g := by
+  unfold rightmostX
+  rw [scaleG_layers_list, List.foldl_map]
+  have h0 : (0 : Rat) = c * 0 := by grind
+  conv => lhs; rw [h0]
+  generalize (0 : Rat) = m
+  induction g.layers.toList generalizing m with
+  | nil => rfl
+  | cons l ls ih =>
+    simp only [List.foldl_cons, scaleLayer]
+    cases l.nodes.getLast? with
+    | none => exact ih m
+    | some n =>
+      simp only [(scaleG_node c g n).1, (scaleG_node c g n).2.2.1]
+      have : c * (g.node n).x + c * (g.node n).w = c * ((g.node n).x + (g.node n).w) := by grind
+      rw [this, maxRat_scale _ _ _ hc]
+      exact ih _
+
+theorem collectComp_scale (c : Rat) (cfg : Cfg) (shift : Rat) (ci : Nat) (g : G) :
+    collectComp (scaleCfg c cfg) (c * shift) ci (scaleG c g) = scaleOut c (collectComp cfg shift ci g) := by
+  simp only [collectComp, scaleOut, mapOut, List.map_map]
+  congr 1
+  · have hv : (scaleCfg c cfg).virt = cfg.virt := rfl
+    simp only [scaleG, Array.toList_map, List.filter_map, List.map_map, hv]
+    apply List.map_congr_left
+    intro n _
+    simp only [Function.comp]
+    congr 1; grind
+  · apply List.map_congr_left
+    intro e _
+    have he := scaleGP_edge c g e
+    simp only [scaleGP] at he
+    simp only [Function.comp, he, (scaleG_node_top c g _).1]
+    have hid : ∀ n, ((scaleG c g).node n).id = (g.node n).id := by
+      intro n
+      simp only [scaleG, G.node, Array.getD_eq_getD_getElem?, Array.getElem?_map]
+      cases g.nodes[n]? with
+      | none => simp [default, instInhabitedNode.default]
+      | some nd => rfl
+    simp only [hid, List.isEmpty_map]
+    split
+    · rfl
+    · simp only [Option.map_some, List.map_map, Function.comp_def, scalePt]
+      have hm : (g.edge e).pts.map (fun x => (c * x.fst + c * shift, c * x.snd)) =
+          (g.edge e).pts.map (fun x => (c * (x.fst + shift), c * x.snd)) := by
+        apply List.map_congr_left
+        intro p _
+        congr 1; grind
+      rw [hm]
+
+theorem collect_scale (c : Rat) (hc : 0 < c) (cfg : Cfg) : ∀ (gs : List G) (shift : Rat) (ci : Nat),
+    collect (scaleCfg c cfg) (c * shift) ci (gs.map (scaleG c)) = scaleOut c (collect cfg shift ci gs)
+  | [], _, _ => rfl
+  | g :: gs, shift, ci => by
+    simp only [collect, List.map_cons, collectComp_scale, rightmostX_scale c hc]
+    have hns : (scaleCfg c cfg).ns = c * cfg.ns := rfl
+    have : c * shift + (c * rightmostX g + (scaleCfg c cfg).ns) = c * (shift + (rightmostX g + cfg.ns)) := by rw [hns]; grind
+    rw [this, collect_scale c hc cfg gs]
+    simp only [scaleOut, mapOut, List.map_append]
+
+theorem layoutComponentS_scale (c : Rat) (hc : 0 < c) (ord : G → M G) (cfg : Cfg) (hp : cfg.p4 ≤ 2) (comp : G × List Nat) :
+    layoutComponentS ord (scaleCfg c cfg) comp = (layoutComponentS ord cfg comp).map (scaleG c) := by
+  unfold layoutComponentS
+  have hp1 : (scaleCfg c cfg).p1 = cfg.p1 := rfl
+  have hp5 : (scaleCfg c cfg).p5 = cfg.p5 := rfl
+  simp only [hp1, hp5, sizeFreeCfg_scale, bind, Except.bind]
+  cases phase1 cfg.p1 comp.1 with
+  | error e => rfl
+  | ok g1 =>
+    simp only
+    cases phase2Model (sizeFreeCfg cfg) g1 with
+    | error e => rfl
+    | ok g2 =>
+      simp only
+      cases phase3Model ord g2 with
+      | error e => rfl
+      | ok g3 =>
+        simp only
+        have h45 := C17_phase45_scale c hc cfg hp (attachSizes cfg g3)
+        simp only [bind, Except.bind, hp5] at h45
+        rw [attachSizes_scale, h45]
+        cases phase4Model cfg (attachSizes cfg g3) with
+        | error e => rfl
+        | ok g4 =>
+          simp only
+          cases phase5 cfg.p5 cfg.ls g4 with
+          | error e => rfl
+          | ok g5 => simp only [Except.map, pure, Except.pure, postProcess_scale]
+
+theorem mapM_layoutComponentS_scale (c : Rat) (hc : 0 < c) (ord : G → M G) (cfg : Cfg) (hp : cfg.p4 ≤ 2) :
+    ∀ (comps : List (G × List Nat)),
+    comps.mapM (layoutComponentS ord (scaleCfg c cfg)) = (comps.mapM (layoutComponentS ord cfg)).map (List.map (scaleG c))
+  | [] => rfl
+  | comp :: comps => by
+    simp only [List.mapM_cons, bind, Except.bind, layoutComponentS_scale c hc ord cfg hp, mapM_layoutComponentS_scale c hc ord cfg hp comps]
+    cases layoutComponentS ord cfg comp with
+    | error e => rfl
+    | ok g =>
+      cases List.mapM (layoutComponentS ord cfg) comps with
+      | error e => rfl
+      | ok gs => rfl
+
+/-- **C17 end to end** (SinkColoring, VAlign or PackRight; Polyline, Straight, Orthogonal or no routing; every edge list, both cycle
+    breakers, both layerers, every size map and spacing, every c > 0): the composed model `layoutModelS` — compared with the public result
+    of the real `Layout` on every traced run as `T:pipeline-sizes` — run with all node sizes, NodeSpacing and LayerSpacing multiplied
+    by c returns exactly `scaleOut c` of its result for the original options: every node coordinate and size and every route point
+    multiplied by c, nothing else changed; and it fails exactly when the original run fails. `scaleOut` is the relation the driver's C17
+    predicate checks on the real outputs. -/
+theorem C17_layoutModelS_scale (c : Rat) (hc : 0 < c) (ord : G → M G) (cfg : Cfg) (hp : cfg.p4 ≤ 2) (es : InEdges) :
+    layoutModelS ord (scaleCfg c cfg) es = (layoutModelS ord cfg es).map (scaleOut c) := by
+  unfold layoutModelS
+  simp only [sizeFreeCfg_scale, bind, Except.bind]
+  cases preProcess (sizeFreeCfg cfg) es with
+  | error e => rfl
+  | ok comps =>
+    simp only [mapM_layoutComponentS_scale c hc ord cfg hp]
+    cases List.mapM (layoutComponentS ord cfg) comps with
+    | error e => rfl
+    | ok gs =>
+      simp only [Except.map, pure, Except.pure]
+      have := collect_scale c hc cfg gs 0 0
+      rw [show c * (0 : Rat) = 0 by grind] at this
+      rw [this]
 
 end Autog
